@@ -378,6 +378,8 @@ impl StorageEngine {
         if let Some(stored_value) = shard_guard.data.get_mut(key) {
             stored_value.metadata.set_expiration(expires_in);
             shard_guard.expiring_keys.insert(key.to_vec(), super::value::deadline_after(Instant::now(), expires_in));
+            // a changed TTL is a change of the key as far as WATCH is concerned
+            shard_guard.mark_modified(key);
             Ok(true)
         } else {
             Ok(false)
@@ -498,6 +500,14 @@ impl StorageEngine {
             // Calculate memory to free from this shard
             for (key, stored_value) in shard_guard.data.iter() {
                 total_memory_to_free += self.calculate_value_size(key, &stored_value.value);
+            }
+            
+            // every key of the database vanishes: watchers of any of them must see a change
+            if shard_guard.watch_tracker.has_active_watchers() {
+                let keys: Vec<Key> = shard_guard.data.keys().cloned().collect();
+                for key in &keys {
+                    shard_guard.mark_modified(key);
+                }
             }
             
             shard_guard.data.clear();
@@ -2053,7 +2063,15 @@ impl StorageEngine {
             // Same shard - simple case
             let mut shard_guard = old_shard.write().unwrap();
             if let Some(stored_value) = shard_guard.data.remove(old_key) {
+                // the TTL travels with the value: move the expiry index entry as well
+                shard_guard.expiring_keys.remove(old_key);
+                shard_guard.expiring_keys.remove(&new_key);
+                if let Some(expires_at) = stored_value.metadata.expires_at {
+                    shard_guard.expiring_keys.insert(new_key.clone(), expires_at);
+                }
                 shard_guard.data.insert(new_key.clone(), stored_value);
+                // both names changed as far as WATCH is concerned: the source vanished
+                shard_guard.mark_modified(old_key);
                 shard_guard.mark_modified(&new_key);
                 Ok(())
             } else {
@@ -2078,7 +2096,13 @@ impl StorageEngine {
             
             // Move the value between shards
             if let Some(stored_value) = old_guard.data.remove(old_key) {
+                old_guard.expiring_keys.remove(old_key);
+                new_guard.expiring_keys.remove(&new_key);
+                if let Some(expires_at) = stored_value.metadata.expires_at {
+                    new_guard.expiring_keys.insert(new_key.clone(), expires_at);
+                }
                 new_guard.data.insert(new_key.clone(), stored_value);
+                old_guard.mark_modified(old_key);
                 new_guard.mark_modified(&new_key);
                 Ok(())
             } else {
@@ -2138,6 +2162,7 @@ impl StorageEngine {
             if stored_value.metadata.expires_at.is_some() {
                 stored_value.metadata.clear_expiration();
                 shard_guard.expiring_keys.remove(key);
+                shard_guard.mark_modified(key);
                 Ok(true)
             } else {
                 Ok(false)
